@@ -44,7 +44,7 @@ ENV_FILES = [
     dict(path="b/d1.txtpp", text="D\n"),
     dict(path="b/pa", text="printf a\n"), dict(path="b/ab", text="printf 'a\\nb\\n'\n"),
     dict(path="b/cr", text="printf 'a\\r\\nb\\r\\n'\n"), dict(path="b/x3", text="echo zz\nexit 3\n"),
-    dict(path="b/nl", text="echo\n"), dict(path="b/pm", text="a\nb\r\n"), dict(path="b/mx", text="printf 'a\\r\\nb\\nc'\n"), dict(path="b/sub/.keep", text=""),
+    dict(path="b/nl", text="echo\n"), dict(path="b/pm", text="a\nb\r\n"), dict(path="b/mx", text="printf 'a\\r\\nb\\nc'\n"), dict(path="b/sub", dir=True),
 ]
 ENV_NAMES = {f["path"][2:] for f in ENV_FILES}
 
